@@ -25,7 +25,9 @@ UNIT_TIMEOUT = {"quick": 150, "thorough": 2400}
 
 BASE = dict(
     p_shared=0.3,
-    p_item_fault=0.08,
+    p_item_fault=0.14,
+    # "hit": the request is answered on the spot when it is created (a local-cache hit) and still travels in its batch
+    item_fault_modes=["error", "unset", "baseerror", "falsyerror", "hit", "hit", "hit"],
     p_spawn=0.04,
     p_flush_fault=0.15,
     p_wrap=0.6,
